@@ -1,6 +1,6 @@
 (* C15 — soundness of the certificate search Spec.EulerReduceC15.reduce *)
 From Coq Require Import ZArith List Bool Lia ZifyBool.
-From Centro Require Import Base.GraphC15 Model.LabelGraph Proofs.NeighborsC15 Proofs.EulerStepC15 Proofs.EulerTopoC15
+From Centro Require Import Base.GraphC15 Model.LabelGraph Spec.EulerMovesC15 Proofs.NeighborsC15 Proofs.EulerStepC15 Proofs.EulerTopoC15
   Spec.EulerReduceC15.
 Import ListNotations.
 Open Scope Z_scope.
